@@ -514,8 +514,82 @@ def b_unhandled(tier):
     return b
 
 
+def ref_variables(e):
+    """Independent reference: the set of Variable nodes of a tree."""
+    import pymbolic.primitives as p
+    out = {e} if isinstance(e, p.Variable) else set()
+    for c in ref_children(e):
+        out |= ref_variables(c)
+    return out
+
+
+def b_collector_histories(tier):
+    """Set-valued combine mappers on ONE instance over a history of calls: every application returns the union over its leaves,
+    whatever was applied before, and a result already returned keeps its value."""
+    import pymbolic.primitives as p
+    from pymbolic.mapper import CachedCollector, Collector
+    from pymbolic.mapper.dependency import CachedDependencyMapper, DependencyMapper
+    b = BoundedRun("collector-histories", rule="DependencyMapper / CachedDependencyMapper (composite_leaves=False, and include_cses off), a Collector and a CachedCollector "
+                   "subclass returning {variable}: one instance applied to the whole expression set (forward, backward, and with sums sharing common subexpressions "
+                   "and subtrees), each result = the set of Variable nodes of the tree (independent traversal); results returned earlier are unchanged at the end; "
+                   "sets owned by a handler are not modified", bound="4 mappers x 2 orders x expression set", functions=["Collector.combine", "CombineMapper.*", "DependencyMapper"])
+    x, y, z, w = trees.X, trees.Y, trees.Z, p.Variable("w")
+    cse = p.CommonSubexpression(p.Sum((x, y)), "c")
+    shared = p.Product((x, y))
+    extra = [p.Sum((cse, z)), p.Sum((cse, w)), p.Product((z, cse)), p.Sum((shared, z)), p.Sum((shared, w, 1)), p.Power(shared, z), cse, shared, p.Sum((x, w)), x,
+             p.Sum((p.CommonSubexpression(x, "cx"), z)), p.Sum((p.CommonSubexpression(x, "cx"), w)), p.If(p.Comparison(x, "<", y), cse, shared)]
+    dom = [e for e in domain(tier) if not isinstance(e, (list, tuple))] + extra
+
+    class VC(Collector):
+        def map_variable(self, e, *a, **kw):
+            return {e}
+
+    class CVC(CachedCollector):
+        def map_variable(self, e, *a, **kw):
+            return {e}
+
+    class Owned(Collector):
+        """Hands out sets it keeps (one per variable): combining must not write into a child's result."""
+        def __init__(self):
+            self.owned = {}
+
+        def map_variable(self, e, *a, **kw):
+            return self.owned.setdefault(e, {e})
+
+    subjects = [("DependencyMapper", lambda: DependencyMapper(composite_leaves=False)), ("CachedDependencyMapper", lambda: CachedDependencyMapper(composite_leaves=False)),
+                ("Collector", VC), ("CachedCollector", CVC), ("OwningCollector", Owned)]
+    for sname, mk in subjects:
+        for order in ("forward", "backward"):
+            m = mk()
+            seq = dom if order == "forward" else dom[::-1]
+            kept = []
+            for i, e in enumerate(seq):
+                real = outcome.run(lambda: m(e))
+                b.case((sname, order, i), sample=dict(mapper=sname, order=order, expr=repr(e)))
+                if real[0] != "val":
+                    continue                    # unsupported node types are judged by the combine / unhandled checks
+                want = ref_variables(e)
+                case = dict(kind="collector-history", mapper=sname, order=order, index=i)
+                if not (isinstance(real[1], (set, frozenset)) and set(real[1]) == want):
+                    b.fail(Failure("collector-histories", f"what=wrong-union mapper={sname} order={order} step={i} expr={e!r}", case, expected=repr(sorted(map(str, want))),
+                                   actual=outcome.describe(real)[:200], functions=["Collector.combine"]))
+                kept.append((e, real[1], frozenset(real[1]) if isinstance(real[1], (set, frozenset)) else None, i))
+            for e, res, snap, i in kept:
+                if snap is not None and frozenset(res) != snap:
+                    b.fail(Failure("collector-histories", f"what=returned-result-changed-later mapper={sname} order={order} step={i} expr={e!r}",
+                                   dict(kind="collector-history", mapper=sname, order=order, index=i), expected=repr(sorted(map(str, snap))),
+                                   actual=repr(sorted(map(str, res)))[:200], functions=["Collector.combine"]))
+            if sname == "OwningCollector":
+                for v, sset in m.owned.items():
+                    if sset != {v}:
+                        b.fail(Failure("collector-histories", f"what=handler-owned-set-modified mapper={sname} order={order} variable={v}",
+                                       dict(kind="collector-history", mapper=sname, order=order, index=-1), expected=repr({v}), actual=repr(sorted(map(str, sset)))[:200],
+                                       functions=["Collector.combine"]))
+    return b
+
+
 def bounded(tier, seed, procs):
-    return [b_walk(tier), b_identity(tier), b_combine(tier), b_dispatch(tier), b_unhandled(tier), b_callback(tier)]
+    return [b_walk(tier), b_identity(tier), b_combine(tier), b_dispatch(tier), b_unhandled(tier), b_callback(tier), b_collector_histories(tier)]
 
 
 def b_callback(tier):
@@ -599,7 +673,7 @@ def count_nodes(e):
 
 def replay(case):
     kind = case.get("kind")
-    table = {"walk": b_walk, "identity": b_identity, "combine": b_combine, "unhandled": b_unhandled}
+    table = {"walk": b_walk, "identity": b_identity, "combine": b_combine, "unhandled": b_unhandled, "collector-history": b_collector_histories}
     f = table.get(kind, b_dispatch)
     b = f("quick")
     return any(x.case == case for x in b.failures)
